@@ -47,6 +47,33 @@ dq! {
 	c06t_deque_u128_h3_n2: u128, 3, 2, 36, 35; c06t_deque_f32_h2_n3: f32, 2, 3, 16, 15;
 }
 
+/// 63 / 64 / 65 elements in a wrapped ring: the count prefix changes width at 64, the deque must still encode like the Vec
+#[kani::proof]
+#[kani::unwind(70)]
+pub fn c06q_deque_count_boundary_64() {
+	let b: [u8; 65] = kani::any();
+	let mut d: VecDeque<u8> = VecDeque::with_capacity(80);
+	d.push_back(0); d.push_back(0); d.pop_front(); d.pop_front();
+	let mut i = 0;
+	while i < 63 { d.push_back(b[i]); i += 1; }
+	d.push_front(b[64]);
+	// 64 elements: b[64], b[0..63]
+	let mut exp = Buf::<72>::new();
+	put_compact(64, &mut exp);
+	exp.put(b[64]);
+	let mut i = 0;
+	while i < 63 { exp.put(b[i]); i += 1; }
+	let mut r = Buf::<72>::new(); d.encode_to(&mut r);
+	assert!(same_bytes(&r, &exp), "a 64-element deque does not encode as count(64) + elements");
+	let v: Vec<u8> = d.iter().cloned().collect();
+	let mut rv = Buf::<72>::new(); v.encode_to(&mut rv);
+	assert!(same_bytes(&r, &rv), "a 64-element deque does not encode like the Vec of its elements");
+	d.push_back(b[63]);
+	let mut r = Buf::<72>::new(); d.encode_to(&mut r);
+	assert!(r.n == 67 && r.d[0] == ((65u16 << 2) | 1) as u8 && r.d[1] == 1 && r.d[66] == b[63]);
+	core::mem::forget((d, v));
+}
+
 /// other ways to reach a ring state: push_front, rotate_left, make_contiguous
 #[kani::proof]
 #[kani::unwind(8)]
